@@ -1242,6 +1242,19 @@ def gen_C06(rng, n):
     for t in S:
         for sg in ("", "-", "+"):
             out.append(parse_line(sg + t))
+    # a prefix that wraps back to a small value modulo 2^128 (or 2^64) and is followed by more digits in the same
+    # digit run: an overflow recorded at one step must not be forgotten at a later one
+    for kk in (1, 2, 3, 7, 9):
+        for wv in (1, 31415926, 271828182845, 10**8 - 1, 2**64, 10**20 + 3):
+            pre = str(kk * 2**128 + wv)
+            for tail in ("90452353", "5358979300000000", "0", "00000000", "1234567", "999999999"):
+                full = pre + tail
+                for pos in (None, len(pre), len(full) - 8, 1, len(full) - 18):
+                    t = full if pos is None else full[:pos] + "." + full[pos:]
+                    for e_ in ("", "e-3", "E30"):
+                        out.append(parse_line(t + e_))
+                        out.append(parse_line("0." + full + e_)) if pos is None else None
+                        out.append(parse_line("-0.00000000" + full + e_)) if pos == 1 else None
     # malformed stream: every ASCII byte value at each position of an 8-byte window and of the tail
     base = "1234567890123.45e7"
     for pos in range(len(base)):
